@@ -148,7 +148,7 @@ func (in *Interp) hashApp(name string, args ...*Term) *Term {
 	key := fmt.Sprintf("hashrange:%d", r.id)
 	if _, ok := in.extra[key]; !ok {
 		in.extra[key] = true
-		in.recordHashApp(name, r)
+		in.recordHashApp(r.name, r) // the sized symbol: inputs of different lengths are different symbols
 	}
 	return r
 }
@@ -636,7 +636,7 @@ func (in *Interp) bytesHashRaw(name string, bs []*Term, w int) *Term {
 	key := fmt.Sprintf("hashrange:%d", r.id)
 	if _, ok := in.extra[key]; !ok {
 		in.extra[key] = true
-		in.recordHashApp(name, r)
+		in.recordHashApp(r.name, r) // the sized symbol: inputs of different lengths are different symbols
 	}
 	return r
 }
